@@ -59,7 +59,7 @@ def make_setup(case):
     Gs = rnd.choice(divisors(W))
     comm = rnd.choice(["DEFAULT", "FP32", "FP16", "BF16"])
     cp = rnd.random() < 0.5
-    pdt = rnd.choice(["float32", "float32", "float64"])
+    pdt = rnd.choice(["float32", "float32", "float64", "bfloat16"])
     gs = rnd.choice([1e-2, 1.0, 1.0])
     cfg = G.rand_config(rnd, grad_scale=gs, allow_iterative=False, dtype_pair=(pdt, rnd.choice(["float32", "float64"]) if pdt == "float64" else "float32"), well_conditioned=True, max_dim_choices=(2, 3, 4, 5, 1024))
     _tame(cfg)
@@ -73,7 +73,8 @@ def make_setup(case):
         shapes = [[3]] * Gs
     T = rnd.randint(5, 12)
     pk, pres = G.rand_presence(rnd, len(shapes), T, kind=rnd.choice(["all", "never_one", "toggle", "random", "random", "bursts", "all_absent_steps"]))
-    exact = COMM[comm] == "float32" and pdt == "float32"
+    # exact communication: the communication dtype represents every value of the parameter dtype
+    exact = (COMM[comm] == "float32" and pdt in ("float32", "bfloat16")) or (COMM[comm] == "bfloat16" and pdt == "bfloat16")
     return {"W": W, "G": Gs, "comm": comm, "communicate_params": cp, "cfg": cfg, "shapes": shapes, "T": T, "presence_kind": pk, "presence": pres, "grad_scale": gs, "exact": exact, "grad_kind": rnd.choice(["dense", "dense", "sparse"])}
 
 
@@ -150,14 +151,20 @@ def rank_program(ds, torch, S, seed, rank, world, with_twin):
     return hist
 
 
+def _is_zero_dim_narrow(S, j):
+    """0-D parameter of a 16-bit dtype communicated in that same 16-bit dtype"""
+    return len(S["shapes"][j]) == 0 and S["cfg"]["param_dtype"] in ("bfloat16", "float16") and COMM[S["comm"]] == S["cfg"]["param_dtype"]
+
+
 def judge(torch, S, results, desc_full, counters):
-    desc = {k: v for k, v in desc_full.items() if k != "_geometry"}
+    desc = {k: v for k, v in desc_full.items() if k not in ("_geometry", "_known_hits")}
     geo_all = desc_full["_geometry"]
     """checks (i)-(iii) on the recorded per-rank histories"""
     W = S["W"]
     comm_dt = getattr(torch, COMM[S["comm"]])
     r0 = results[0]
     full_steps = 0
+    known_skip, known_hits = set(), desc_full.setdefault("_known_hits", [])
     for t in range(S["T"]):
         # (i) replica agreement
         for r in range(1, W):
@@ -175,6 +182,9 @@ def judge(torch, S, results, desc_full, counters):
                 if "__error__" in rec:
                     raise Inconclusive(f"update capture failed: {rec['__error__']}")
                 for bid, u in rec.items():
+                    if bid[0] in known_skip:
+                        owners.setdefault(bid, set()).add(r % S["G"])
+                        continue  # this parameter already left the serial trajectory through the known finding
                     if bid not in tw:
                         raise Violation(f"step {t + 1}: rank {r} produced an update for block {bid} that the serial optimizer does not update", step=t + 1, kind="update_set", **desc)
                     if not beq(u, tw[bid]):
@@ -187,6 +197,13 @@ def judge(torch, S, results, desc_full, counters):
         if S["exact"]:
             # (ii) exact communication: equal to the (free-running) serial optimizer
             for j, (a, b) in enumerate(zip(r0["params"][t], r0["twin"][t])):
+                if j in known_skip:
+                    continue
+                if not beq(a, b) and _is_zero_dim_narrow(S, j):
+                    # KNOWN FINDING (mechanism zero_dim_update_wider_than_comm): recorded, this parameter is no longer compared
+                    known_skip.add(j)
+                    known_hits.append({"step": t + 1, "param": j, "max_abs_diff": float((a.double() - b.double()).abs().max())})
+                    continue
                 if not beq(a, b):
                     raise Violation(f"step {t + 1}: parameter {j} under DDP differs from the serial optimizer although communication is exact", step=t + 1, param=j, kind="serial_mismatch", max_abs_diff=float((a.double() - b.double()).abs().max()), **desc)
             counters["serial_bitwise_steps"] += 1
@@ -197,10 +214,13 @@ def judge(torch, S, results, desc_full, counters):
             for bid, u in tw.items():
                 j, shp, st, off = geo[bid]
                 view = torch.as_strided(exp[j], shp, st, off)
+                # in-place arithmetic on mixed dtypes is carried out in the promoted type (at least float32) and rounded once
+                acc = torch.promote_types(torch.promote_types(view.dtype, comm_dt), torch.float32)
                 if S["communicate_params"]:
-                    view.copy_((view + u).to(comm_dt).to(view.dtype))
+                    own = (view.to(torch.promote_types(acc, u.dtype)) + u.to(torch.promote_types(acc, u.dtype))).to(view.dtype)
+                    view.copy_(own.to(comm_dt).to(view.dtype))
                 else:
-                    view.add_(u.to(comm_dt).to(view.dtype))
+                    view.copy_((view.to(acc) + u.to(comm_dt).to(acc)).to(view.dtype))
             for j, (a, b) in enumerate(zip(r0["params"][t], exp)):
                 if not beq(a, b):
                     raise Violation(f"step {t + 1}: parameter {j} is not W_old + round_{S['comm']}(update) ({'parameters' if S['communicate_params'] else 'updates'} communicated): DDP deviates from serial by more than the rounding of the communicated quantity", step=t + 1, param=j, kind="rounding_model", max_abs_diff=float((a.double() - b.double()).abs().max()), **desc)
@@ -242,6 +262,7 @@ def run_case(case):
         j = next(i for i, p in enumerate(probe_p) if p is bi.param)
         geo[bi.composable_block_ids] = (j, tuple(v.shape), tuple(v.stride()), v.storage_offset() - bi.param.storage_offset())
     full = 0
+    known_all = []
     for il in range(case["interleavings"]):
         world = ranksim.World(S["W"], interleave_seed=hash((tuple(map(str, case["seed"])), il)) & 0xFFFFFF)
         from ..common import KernelObserver
@@ -267,11 +288,17 @@ def run_case(case):
             raise Inconclusive("a rank did not finish although no error or deadlock was recorded")
         counters["absent_params_checked"] += sum(h.get("absent_checked", 0) for h in results.values())
         d["_geometry"] = geo
+        d["_known_hits"] = known_all
         try:
             full = max(full, judge(torch, S, results, d, counters))
         except Violation as v:
             v.witness.pop("_geometry", None)
+            v.witness.pop("_known_hits", None)
             raise
+    if known_all:
+        v = Violation("0-D parameter of a 16-bit dtype communicated in the same 16-bit dtype: DDP differs from the serial optimizer although the communication dtype is as precise as the parameter (the update of a 0-D block is carried in float32 and rounded by the communication)", kind="zero_dim_update_wider_than_comm", hits=known_all[:5], **desc)
+        v.partial = {"counters": counters}
+        raise v
     nontrivial = S["W"] >= 2 and S["G"] >= 2 and full >= 1
     sig = [S["W"], S["G"], S["comm"], S["communicate_params"], S["cfg"]["param_dtype"], S["cfg"]["precond"]["kind"], (S["cfg"]["grafting"] or {}).get("type", "none"), S["cfg"]["momentum"] > 0, S["presence_kind"], counters["steps_with_starved_rank"] > 0]
     return {"counters": counters, "sigs": [sig] if nontrivial else [], "sample": {k: desc[k] for k in ("W", "G", "comm", "communicate_params", "shapes", "presence_kind", "T")}}
@@ -281,3 +308,12 @@ def conclusive(agg, results, tier):
     need = {"replica_comparisons": 3000, "serial_bitwise_steps": 300, "rounding_model_steps": 300, "owner_updates_compared": 1000, "collectives_logged": 3000, "steps_with_starved_rank": 30}
     low = {k: agg.get(k, 0) for k in need if agg.get(k, 0) < need[k]}
     return f"too few observations: {low}" if low else None
+
+
+def classify(case, witness):
+    """known-finding classifier: a predicate on the generated case and the kind of the failing comparison, never a hash"""
+    if witness.get("kind") == "zero_dim_update_wider_than_comm":
+        S = make_setup(case)
+        if any(_is_zero_dim_narrow(S, j) for j in range(len(S["shapes"]))):
+            return "zero_dim_update_wider_than_comm"
+    return None
